@@ -32,6 +32,10 @@ def run(prog: Program, rep: Report):
     # "a list of strings that started as the file's lines": the offset index the lines are read through is part of this property
     from .c11 import r5_index
     rep.attempt(lambda: r5_index(prog, rep, fam, rule="C12.R10", only_binary=True))
+    # ... and so is the way an entry that is still an offset is read: the raw line reader and its terminator removal (C11.R3)
+    from .c11 import r3_terminator, r3b_raw_reader
+    rep.attempt(lambda: r3_terminator(prog, rep, fam, rule="C12.R11"))
+    rep.attempt(lambda: r3b_raw_reader(prog, rep, fam, rule="C12.R11"))
 
 
 def r1_delegation(prog, rep: Report, fam: Family, mut: Cls, lines: str):
@@ -482,6 +486,26 @@ def r4_save(prog, rep: Report, fam: Family, mut: Cls, rec: Cls, lines: str):
               "save does not hand the object's own iteration, the output and the line ending to the writer",
               scenario="save writes another sequence than list(f), or ignores the chosen line ending")
     record_save_check(prog, rep, "C12.R4", rec, w, lines, fam)
+    # the line ending reaches the writer from every caller that has one: a call of the writer made from a function with a
+    # `line_ending` parameter of its own (save, or the writer calling itself on the file it opened) passes that parameter on
+    le_name = w.params[2] if len(w.params) > 2 else None
+    if le_name:
+        for k_ in {id(k): k for c_ in fam.line_classes for k in c_.repo_mro() if not k.is_external}.values():
+            for g in k_.methods.values():
+                if le_name not in g.params:
+                    continue
+                for c in calls_in(g.node):
+                    if not (isinstance(c.func, ast.Attribute) and c.func.attr == w.name):
+                        continue
+                    given = kwarg(c, le_name, 2)
+                    if given is None and any(isinstance(a_, ast.Starred) for a_ in c.args) or any(k2.arg is None for k2 in c.keywords):
+                        continue
+                    if given is None or src(given) != le_name:
+                        rep.fn(g)
+                        rep.viol("C12.R4", g, f"line-ending-forwarded:{k_.name}.{g.name}",
+                                 f"`{src(c)[:90]}` does not hand `{le_name}` on to the writer: the lines are written with the default ending",
+                                 scenario="save(path, line_ending='\\r\\n') writes '\\n' endings (only for a path / only for a stream): the "
+                                          "saved file differs from the one requested", line=c.lineno)
     # writer (read with the class's private helpers inlined: the print loop may live in a helper of its own)
     from ..inline import inline_view
     w_raw = w
